@@ -669,9 +669,15 @@ func logger() log.Logger {
 }
 
 const (
-	watchdog   = 6 * time.Second
+	watchdog   = 4 * time.Second
 	quiescence = 400 * time.Microsecond
+	// generation stops after this many oracle failures (each hang costs a watchdog period)
+	maxFailures = 6
 )
+
+const worldReadTag = "block with a world read lock: "
+
+var failures int // oracle failures so far, not counting the known world-read-lock finding
 
 func committed(t *htx) bool {
 	p := t.wvs.Load()
@@ -982,7 +988,7 @@ func eqInts(a, b []int64) bool {
 func oracle(bc *blockCase, seq, conc observation) string {
 	tag := ""
 	if hasWorldRead(bc) {
-		tag = "block with a world read lock: "
+		tag = worldReadTag
 	}
 	if seq.Panic != "" || seq.Err != "" || seq.Deadlock != "" {
 		return "sequential execution failed: " + seq.Panic + seq.Err + seq.Deadlock
@@ -1282,6 +1288,9 @@ func emit(c *hxlib.Ctx, kind string, bc *blockCase, r *rand.Rand, sc *seqCache) 
 		cs.Coq = coqCase(bc, seq, conc, r.Int63n(1<<31))
 	}
 	c.Emit(cs)
+	if msg != "" && !strings.HasPrefix(msg, worldReadTag) {
+		failures++
+	}
 	return msg
 }
 
@@ -1419,7 +1428,7 @@ func gen(c *hxlib.Ctx) {
 	emit(c, "world-read/witness", witnessWorldRead(), r, &sc)
 
 	// (2) random programs x forced schedules
-	for i := 0; i < c.N(170); i++ {
+	for i := 0; i < c.N(170) && failures < maxFailures; i++ {
 		bc := genBlock(r, false)
 		for _, b := range schedules(r, bc, 3+r.Intn(4)) {
 			b := b
@@ -1427,12 +1436,15 @@ func gen(c *hxlib.Ctx) {
 		}
 	}
 	// (3) programs with a world read lock (requested by no handler in the tree), serial schedules only
-	for i := 0; i < c.N(30); i++ {
+	for i := 0; i < c.N(30) && failures < maxFailures; i++ {
 		bc := genBlock(r, true)
 		for _, b := range schedules(r, bc, 3) {
 			b := b
 			emit(c, "world-read/serial", &b, r, &sc)
 		}
+	}
+	if failures >= maxFailures {
+		c.Note("generation stopped after %d oracle failures", failures)
 	}
 	// canaries: wrong observations the model must flag
 	if !c.OracleOnly {
@@ -1484,7 +1496,6 @@ func replay(raw json.RawMessage) string {
 }
 
 func main() {
-	_ = strings.TrimSpace
 	hxlib.Main(hxlib.Spec{
 		ID:       "C09",
 		Preamble: "From Goloop Require Import Model_VirtualState.\nFrom GoloopRun Require Import Run_C09.",
